@@ -226,6 +226,16 @@ func registerSynth(_ []SynthPlugin, rec *synthRecorder) {
 		h, _ := mk6("pass", "98")
 		return h, errors.New("synthetic setup failure (handler returned as well)")
 	}})
+	// like an out-of-tree plugin that reads an argument it was not given: its setup function panics. Start-up
+	// ends there (with a crash or, if the loader chooses to, an error) - it does not go on with the plugins
+	// loaded so far
+	reg(&plugins.Plugin{Name: "synpanic", Setup4: func(a ...string) (handler.Handler4, error) {
+		h, _ := mk4("pass", a[len(a)+5])
+		return h, nil
+	}, Setup6: func(a ...string) (handler.Handler6, error) {
+		h, _ := mk6("pass", a[len(a)+5])
+		return h, nil
+	}})
 	reg(&plugins.Plugin{Name: "synnil", Setup4: func(...string) (handler.Handler4, error) { return nil, nil },
 		Setup6: func(...string) (handler.Handler6, error) { return nil, nil }})
 }
